@@ -89,6 +89,27 @@ func cmdWireChild(_ []string) {
 			eb.NewConnection(netceptor.MessageConnFromNetConn(c), true)
 		}
 	}()
+	// the node is not idle: an application keeps opening a datagram socket "probe", follows the unreachable notices
+	// for it for a moment (as Ping, Traceroute and every stream connection do) and closes it again
+	go func() {
+		for {
+			pc, err := n.ListenPacket("probe")
+			if err != nil {
+				time.Sleep(5 * time.Millisecond)
+
+				continue
+			}
+			done := make(chan struct{})
+			u := pc.SubscribeUnreachable(done)
+			select {
+			case <-u:
+			case <-time.After(8 * time.Millisecond):
+			}
+			close(done)
+			_ = pc.Close()
+			time.Sleep(2 * time.Millisecond)
+		}
+	}()
 	b, _ := json.Marshal(ports)
 	fmt.Println("PORTS " + string(b))
 	// "g" on stdin: report the number of goroutines; exit when the parent goes away
@@ -290,6 +311,8 @@ func concretise(class string, me string, seq int, rng *rand.Rand) []byte {
 		return peer.EncodeData(5, me, "victim", "x", "unreach", []byte(`{"FromNode":5,"ToNode":[],"Problem":{}}`))
 	case "data_to_unreach_valid":
 		return peer.EncodeData(5, me, "victim", "unreach", "unreach", []byte(`{"FromNode":"victim","ToNode":"q","FromService":"zz","ToService":"a","Problem":"service unknown"}`))
+	case "data_to_unreach_for_live_socket":
+		return peer.EncodeData(5, me, "victim", "unreach", "unreach", []byte(`{"FromNode":"victim","ToNode":"q","FromService":"probe","ToService":"a","Problem":"service unknown"}`))
 	case "data_to_unreach_null":
 		return peer.EncodeData(5, me, "victim", "x", "unreach", []byte(" null "))
 	case "data_to_unreach_array":
@@ -904,6 +927,10 @@ func runWireStorm(wc *wireChild, d time.Duration) (sig, what string) {
 			return ruJSON("stu2", 0, fmt.Sprintf("stu2-%d", k), map[string]string{"NodeID": `"storig"`, "UpdateSequence": fmt.Sprint(5 + k/2), "Connections": `{"q9":1}`})
 		}},
 		{"stp", func(k int) []byte { return peer.EncodeData(5, "stp", "victim", "prb", "ping", nil) }},
+		// bursts of well-formed unreachable notices that name the socket the node's application keeps opening and closing
+		{"stn", func(k int) []byte {
+			return peer.EncodeData(5, "stn", "victim", "unreach", "unreach", []byte(`{"FromNode":"victim","ToNode":"stn","FromService":"probe","ToService":"nosuch","Problem":"service unknown"}`))
+		}},
 	}
 	var wg sync.WaitGroup
 	stop := time.Now().Add(d)
